@@ -3041,7 +3041,17 @@ impl Zeroconf {
         for answer in msg.answers().iter() {
             let mut new_records = Vec::new();
 
-            let name = answer.get_name();
+            // DNS names are case insensitive: look for our probe of this name
+            // in whatever letter case the peer spells it, and go on with our spelling.
+            let Some(name) = dns_registry
+                .probing
+                .keys()
+                .find(|k| k.eq_ignore_ascii_case(answer.get_name()))
+                .cloned()
+            else {
+                continue;
+            };
+            let name = name.as_str();
             let Some(probe) = dns_registry.probing.get_mut(name) else {
                 continue;
             };
@@ -3277,7 +3287,14 @@ impl Zeroconf {
             } else {
                 // Simultaneous Probe Tiebreaking (RFC 6762 section 8.2)
                 if qtype == RRType::ANY && msg.num_authorities() > 0 {
-                    if let Some(probe) = dns_registry.probing.get_mut(q_name) {
+                    // DNS names are case insensitive: our probe of this name,
+                    // in whatever letter case the peer spells it.
+                    let probe_opt = dns_registry
+                        .probing
+                        .iter_mut()
+                        .find(|(k, _)| k.eq_ignore_ascii_case(q_name))
+                        .map(|(_, probe)| probe);
+                    if let Some(probe) = probe_opt {
                         let next_send = probe.next_send;
                         probe.tiebreaking(&msg, q_name);
                         if probe.next_send != next_send {
